@@ -171,7 +171,7 @@ def crate.quire32.convert.Q32E2.to_posit (self : Rs.Q32E2) : Rs.M Int32 := do
     else
       if reg_a == 30 then
         bit_n_plus_one := (exp_a &&& 2) != 0
-        bits_more := (exp_a &&& 1) != 0
+        bits_more := bits_more || ((exp_a &&& 1) != 0)
         exp_a := 0
       else if reg_a == 29 then
         bit_n_plus_one := (exp_a &&& 1) != 0
@@ -195,7 +195,11 @@ PINS={
  H+'quire32::ops::fdp_one':('src/quire32/ops.rs','pub(super) fn fdp_one('),
  H+'quire32::convert::{impl#4}::to_posit':('src/quire32/convert.rs','pub fn to_posit('),
 }
-PINNED_SHA={}
+PINNED_SHA={
+ H+'quire32::ops::fdp':'09775c15169a701cec1894c85e467b95b44cedbce14c930178ead419dde9ec90',
+ H+'quire32::ops::fdp_one':'c641a6c71c414fb2d3a9d2fe89ba564c3f2bb6c4e172e5d6c7796a3ff7883005',
+ H+'quire32::convert::{impl#4}::to_posit':'b8d14760bbfe590154ed16c604bd841fe1c26679f14d7a68f576111d232c1ab4',
+}
 def item_source(repo,file,start):
     """source text of the Rust item that begins with `start`, up to its matching closing brace"""
     try: txt=open(os.path.join(repo,file)).read()
